@@ -100,6 +100,7 @@ def history(h, integ):
 def interleave(sched: List[bool], h: int) -> bool:
     """
     pre: len(sched) == P["steps"] and 0 <= h <= 2 and (P.get("h") is None or h == P["h"])
+    pre: all(sched[i] == v for i, v in enumerate(P.get("fixsched", [])))
     post: _
     """
     integ = P["integ"]
